@@ -15,6 +15,8 @@ CONTENT = {
     "dots": ["x.y-z.cmake", "n.txt"],
     "nodot": ["a.cmake", "cmake"],
     "stemorder": ["a.cmake", "a-b.cmake"],
+    "cmakeinname": ["a.cmake", "a.cmake-3.cmake"],     # '.cmake' occurs in front of the real extension
+    "dotfile": [".defaults.cmake"],
     "indexfile": ["a.cmake", "index.cmake"],    # its page has the path of the directory index (known finding K4)
     "indexfile_renamed": ["a.cmake", "index_.cmake"],      # 'a-b.cmake' < 'a.cmake' but 'a' < 'a-b'
 
